@@ -33,6 +33,9 @@ CHECKS["C16"] = dict(level="model_checking", technique="TLA+ Pipeline model (pro
 CHECKS["C13"] = dict(level="model_checking", technique="TLA+ Pipeline model (C13_OrderIndependent over every iteration order) checked by TLC with a negative-control knob setting; many fresh-process runs and semantics-preserving source transformations on the real CLI/build driver; output relations (identical / vizonly / declset) judged by TLC",
     text="TLC shows on the Pipeline model that what a run writes is independent of the iteration order it sees (and rejects the pinned tree's knob setting); on the real binaries each project state (base, each of 26 edit classes, sampled pairs; 1..6 command files) is generated by many fresh processes on both drivers and under each semantics-preserving transformation, and Trace_Pipeline judges the relations the property demands over per-file sequences of declaration digests.",
     note="Schedules (hash seeds) on the real binary are sampled (6 processes quick / 25 thorough per state); exhaustiveness over orders is in the model only.", ref="6 (C13)")
+CHECKS["C19"] = dict(level="exploration", technique="TLA+ ConfigDoc operators (Norm/Foreign/Preserved, RoundTrips, Effective, MustReject) as oracle; TLC enumerates document shapes and all 26 244 flag/file combinations; real save/load and real CLI runs; trace validation by TLC",
+    text="TLC-enumerated JSON document shapes filled from an atom pool (escaped/Unicode strings, i64/u64 extremes, decimals) go through the real save_to_tauri_config / from_tauri_config and TLC checks that everything outside plugins.typegen is preserved atom for atom and that the settings read back equal those written; every TLC-enumerated combination of flags and file settings (sampled in quick) is run on the real CLI and the observed effective settings are compared with ConfigDoc!Effective; invalid settings must be rejected before anything is written.",
+    note="Documents whose `plugins` is not an object are outside the property's quantifier and not judged. Numbers limited to exactly representable f64/i64/u64. Exact JSON reader = Python json with Decimal.", ref="6 (C19)")
 NOT_YET = {}
 def main():
     props = [json.loads(l) for l in open(os.path.join(VERIF, "properties.jsonl"))]
